@@ -1134,7 +1134,7 @@ def iter_protocol(I, st, it, node):
         else:
             n = z3.If(hi > lo, (hi - lo + step - 1) / step, z3.IntVal(0))
         n = z3.simplify(n) if conc_int(lo) is not None and conc_int(hi) is not None else n
-        return n, (lambda s, k: [(s, Num(z3.simplify(lo + k * step) if conc_int(k) is not None and conc_int(lo) is not None else lo + k * step, "int"))])
+        return n, (lambda s, k: [(s, Num(z3.simplify(lo + k * step), "int"))])
     if isinstance(it, ZipV):
         rss = [rseq(I, st, x) for x in it.seqs]
         n = rss[0].length
